@@ -24,7 +24,16 @@ FS = 'rules::functions::strings'
 FC = 'rules::functions::collections'
 FV = 'rules::functions::converters'
 
+RTM = 'commands::reporters::test'
+RTS = 'commands::reporters::test::structured'
+CT = 'commands::test'
+
 UNITS = {
+    'U-expect': dict(functions='reporters::test::get_status_result', cls='bounded (<= 3 definitions per rule name, all 3^k statuses x 3 expected statuses)',
+                     quick=reg(RTM, ['k_expect']), thorough=[], assumptions=[], timeout=600),
+    'U-xr': dict(functions='TestResult::get_exit_code + TestCase::has_failures', cls='bounded (<= 2 test cases x <= 2 failed rules)',
+                 quick=reg(RTS, ['k_test_result_exit_code']), thorough=[], assumptions=[], timeout=600),
+    'U-xt-k': dict(functions='commands::test::get_exit_code', cls='complete ({0,1,7}^2)', quick=reg(CT, ['k_test_get_exit_code']), thorough=[], assumptions=[], timeout=300),
     'U-count': dict(functions='functions::collections::count', cls='bounded (<= 3 arguments, every mix of Resolved / Literal / UnResolved, symbolic payloads)',
                     quick=reg(FC, ['k_count']), thorough=[], assumptions=[STUBS[0]], timeout=600),
     'U-conv': dict(functions='functions::converters::parse_char/parse_int/parse_bool (+ skip behaviour of all five converters)', cls='complete on the numeric/char/bool payload (single argument); String arms delegate to std parse (trusted)',
@@ -33,10 +42,11 @@ UNITS = {
                      quick=reg(FS, ['k_substr_ascii', 'k_substr_utf8_nopanic', 'k_substr_skips']), thorough=[], assumptions=STUBS, timeout=600),
     'U-join': dict(functions='functions::strings::join', cls='bounded (3 one-byte strings, one-byte delimiter; empty; non-string; unresolved)',
                    quick=reg(FS, ['k_join']), thorough=[], assumptions=STUBS, timeout=600),
-    'U-cnf': dict(functions='eval::eval_conjunction_clauses (real generic code, T = leaf code)',
-                  cls='bounded (all shapes <= 2 lines x <= 2 alternatives quick; <= 3 x 3 thorough; every leaf in PASS/FAIL/SKIP/Err)',
-                  quick=reg(EV, ['k_cnf_0', 'k_cnf_1', 'k_cnf_2_22']), thorough=reg(EV, ['k_cnf_2_33', 'k_cnf_3_a1', 'k_cnf_3_a2', 'k_cnf_3_a3']),
-                  assumptions=[STUBS[0], 'leaf evaluators obey clause_post (one record, status == result)'], timeout=900),
+    'U-cnf': dict(functions='eval::eval_conjunction_clauses (real generic code, T = forced leaf)',
+                  cls='bounded (all shapes <= 2 lines x <= 3 alternatives quick; <= 3 x 3 thorough; every leaf in PASS/FAIL/SKIP/Err)',
+                  quick=reg(EV, ['k_cnf_0', 'k_cnf_1_1', 'k_cnf_1_2', 'k_cnf_1_3', 'k_cnf_2_1', 'k_cnf_2_2', 'k_cnf_2_3']),
+                  thorough=reg(EV, ['k_cnf_3_1', 'k_cnf_3_2', 'k_cnf_3_3']),
+                  assumptions=[STUBS[0], 'leaf evaluators are pure status sources (their own records are their business: clause_post)'], timeout=900, mem_gb=8),
     'U-cmp-int': dict(functions='path_value::compare_values/compare_eq/compare_lt/le/gt/ge on Int', cls='complete (all i64 x i64)',
                       quick=reg(PV, ['k_cmp_int']), thorough=[], assumptions=STUBS, timeout=300),
     'U-cmp-float': dict(functions='path_value::compare_* on Float', cls='complete (all finite f64 x f64; NaN separately)',
